@@ -290,7 +290,7 @@ def case_api(ctx, inp):
     except AssertionError as e:
         sig = None
         empty = any(n == 0 for n in inp["lens"]) and len(inp["lens"]) > 1
-        if k in ("max", "min") and not p.get("skipna", True) and empty and p.get("axis", 0) == 0:
+        if k in ("max", "min") and not p.get("skipna", True) and empty and (inp.get("column") or p.get("axis", 0) == 0):
             sig = FINDING_MINMAX
         ctx.fail(f"{k}({p}, split_every={inp['se']}) differs from pandas", sig=sig, observed=str(e)[:300])
         return
@@ -300,7 +300,7 @@ def case_api(ctx, inp):
     except AssertionError as e:
         empty = any(n == 0 for n in inp["lens"]) and len(inp["lens"]) > 1
         sig = None
-        if k in ("max", "min") and empty and p.get("axis", 0) == 0:
+        if k in ("max", "min") and empty and (inp.get("column") or p.get("axis", 0) == 0):
             sig = "api:int-minmax:empty-partition:float64"
         ctx.fail(f"{k}({p}, split_every={inp['se']}): values equal pandas but dtypes differ", sig=sig, observed=str(e)[:300])
         return
